@@ -255,5 +255,9 @@ func (*treePipeline) handlePipelineErr(ctx context.Context, echs ...<-chan error
 			return nil
 		})
 	}
-	return eg.Wait()
+	if err := eg.Wait(); err != nil {
+		return err
+	}
+	// every stage has finished: if that is because the context was cancelled, say so
+	return ctx.Err()
 }
